@@ -6,6 +6,11 @@ ROOT = os.path.join(os.path.dirname(os.path.abspath(__file__)), "..")
 props = [json.loads(l) for l in open(os.path.join(ROOT, "properties.jsonl"))]
 
 CLAIMED = {
+    "C04": dict(
+        text="Lean theorems: for every state reachable by a legal history of any length, every commit block, every write index i and every durable in-window target n, (first i persistent writes of the commit, process death, reopen, reorg n) does not panic and every key reads its value at the end of block n; the same for a crash at any write of the commit that ends a reorg; a crash with no write in flight loses only uncommitted work; crash after the last write = completed commit. Tie: suite T compares the per-key order of the persistent writes the real BlockCachedDatabase issues in commit/reorg (recorded by the failpoint hook) with the model's write list, plus on-disk rows; suite X kills the real engine process at sampled write indices of every commit / reorg of random histories, reopens, reorgs to a durable height and compares the whole observable state with a fresh replay",
+        note="trusted: Lean kernel (+ propext, Classical.choice, Quot.sound); RocksDB single-write atomicity and persistence across process death (parameter; power-loss / fsync durability not modelled); failpoint hook; composition across the engine's tables is exercised (suite X), the theorems are per table. The defect found by the proof attempt (F18: history deleted before the value row was rewritten) was repaired by a fix: commit and is listed as fixed in known_findings.json",
+        technique="Lean 4 proof (simulation invariant over crash prefixes of the write list) + write-order correspondence + real process-kill differential test",
+        ref="DESIGN.md §6 C04"),
     "C13": dict(
         text="Lean theorems: refinement of the versioned-table model to a plain per-key-log map for every legal API history of any length (run_sim), exact rollback inside the window, exact-or-loud history rollback, commit/discard/reopen laws, version bound, complete + ordered + hash-order-independent scans; tied to the code by the suite-T correspondence (every op answered by the real BlockCachedDatabase / BlockHistoryCacheData / BlockDatabase and by the compiled model, on-disk rows included) and by the regenerated window constant",
         note="trusted: Lean kernel (+ propext, Classical.choice, Quot.sound); RocksDB put/delete atomicity and byte-order iteration (parameter); the harness, line protocol and driver parser; codec round trip proved under C14. Known finding F12 (component-level deep rollback after history GC) is listed in known_findings.json.",
@@ -105,7 +110,7 @@ m = {
     "hooks": {"guard": "cargo feature verif-hooks",
               "enable": "the harness crate /verif/harness depends on brc20-prog = { path = \"/repo\", features = [\"verif-hooks\"] }; `cargo build --offline` in /verif/harness rebuilds /repo's working tree with the hooks on",
               "baseline_off_cmd": "cd /repo && cargo test --workspace --no-fail-fast --offline",
-              "source_commits": ["cefa175", "f6b9057"], "add_only": True},
+              "source_commits": ["cefa175", "f6b9057", "7ebaff9"], "add_only": True},
     "engines": [{"name": "lean-proof+correspondence", "path": "/verif/check", "serves_properties": sorted(CLAIMED),
                  "kind_free_text": "Lean 4 theorems over an executable model (lean/Brc20), facts regenerated from the source on every run (tools/gen_*.py -> lean/Brc20/Gen), and a differential correspondence check between the compiled model driver and the real code driven in-process by /verif/harness"}],
     "checks": [], "notes": "see DESIGN.md; known findings in known_findings.json; seeded changes in seeded/", "not_applicable": []}
